@@ -231,10 +231,17 @@ def enum_cases(ctx: Ctx):
         yield {"fields": [["Resolution", "480", "  ", ""], [p, std[k], "  ", " "]], "target": p,
                "new_value": {"int": "0012", "p2": "bass", "str": '"'}[k]}
     yield {"fields": [[p, std[k], "  ", ""] for p, s, k, d in OPTIONAL], "target": None, "new_value": None}
+    # lines longer than any plausible line buffer or length guard (2^16 characters and beyond)
+    for j, pad in enumerate(G.HUGE_PADS):
+        yield {"fields": [["Name", "The Song", pad, ""], ["Resolution", "192", "  ", pad[:66000]],
+                          ["Offset", "5", pad, " "], ["Player2", "rhythm", "  ", pad]], "target": "Name",
+               "new_value": "x", "via_chart": j == 1}
+    yield {"fields": [["Resolution", "192", "  ", ""], ["Charter", "v" * 70000, "  ", ""], ["Album", "a", "  ", ""]],
+           "target": "Album", "new_value": "é" * 66000}
 
 
 PARTS: list[Part] = [
     enum_part("enumerated", enum_cases, check_body, {"quick": 1, "thorough": 1}),
-    hyp_part("bodies", strat_bodies, check_body, {"quick": 500, "thorough": 25000},
+    hyp_part("bodies", strat_bodies, check_body, {"quick": 800, "thorough": 25000},
              {"quick": 8, "thorough": 16}),
 ]
